@@ -14,7 +14,7 @@ TECHNIQUE = "Hypothesis-generated ragged plate sets compared with a loop-by-loop
 RULE = (
     "(scorer path: also candidate plates combined with an already selected plate, i.e. overlapping scored subsets, at three batch sizes) "
     "n=3..32 posterior samples (32 = largest full enumeration under the default budget of 5000) with all C(n,3) triples enumerated, 1..6 plates of 1..8 experiments (ragged; size-1 and single-plate cases "
-    "forced), means in [-30,30] (occasionally 1e3; in a third of the plates a common level of 1e2, 1e4 or +-1e6 plus differences in [-3,3]), variances 10^U(-3,3), symmetric non-negative zero-diagonal distance matrices with exact "
+    "forced), means in [-30,30] (occasionally 1e3; in a third of the plates a common level of 1e2, 1e4 or +-1e6 plus differences in [-3,3]), variances 10^U(-3,3), symmetric non-negative distance matrices (zero diagonal; for the function entry points in a third of the cases a non-zero one) with exact "
     "zeros, distance_factor in {1,.5,2}; entry points: heteroscedastic, homoscedastic, vectorized (harness-built NaN padding) and "
     "GaussianDBALScorer.score on real plates with shipped and a harness-defined heteroscedastic Theta, max_chunk 1..7; plus re-grouping, "
     "experiment and sample permutations. Non-trivial = >=2 plates of different sizes (padding exercised) or a size-1 plate. distinct = distinct case JSON."
@@ -82,6 +82,7 @@ def _raw(draw):
         "plates": plates,
         "homo_logvar": homo,
         "dist": draw(_dist(n)),
+        "diagonal": draw(st.sampled_from([None, None, None, 1.0, 7.5])),
         "df": draw(st.sampled_from([1.0, 1.0, 0.5, 2.0])),
         "subset": draw(st.lists(st.integers(0, n_pl - 1), min_size=1, max_size=n_pl, unique=True)),
         "perm_seed": draw(st.integers(0, 10**6)),
@@ -114,11 +115,15 @@ def strategy(tier):
     return st.one_of(_raw(), _raw(), _scorer())
 
 
-def _dense(dist, n):
+def _dense(dist, n, diagonal=None):
     d = np.zeros((n, n))
     for k, v in dist.items():
         i, j = map(int, k.split(","))
         d[i, j] = d[j, i] = v
+    if diagonal is not None:
+        # a symmetric non-negative matrix whose diagonal is not zero (e.g. A + A.T as it comes): the estimator only ever uses pairs of
+        # DIFFERENT samples, so the diagonal is irrelevant to it
+        np.fill_diagonal(d, diagonal)
     return d
 
 
@@ -162,7 +167,7 @@ def check_case(case):
 
     if case["kind"] == "raw":
         n = case["n"]
-        d = _dense(case["dist"], n)
+        d = _dense(case["dist"], n, case.get("diagonal"))
         df = case["df"]
         budget = math.comb(n, 3) + case["extra_budget"]
         means = [np.array(p["means"], dtype=float) for p in case["plates"]]
